@@ -188,7 +188,7 @@ def ref_values(m, cross):
 
 
 def search(ctx):
-    pass
+    ctx.widen(run)
 
 
 def replay(ctx, rp):
